@@ -20,7 +20,7 @@ INFO = dict(
               'caller holds (a counting subclass injected for scales.dispatch.AsyncResult): exactly one completion at the horizon; completion '
               'time <= ceil_10ms(t+T); TimeoutError => completion time >= t+T; later replies/faults/timers change nothing.',
   bounds={'quick': 'per stack: 1 endpoint / 1 call (reply vs timer; peer close vs timer; injected I/O error at a symbolic operation index, then a second call), 2 calls issued together on one endpoint (servers reply after symbolic delays; thorough: symbolic issue gaps, reply or stay silent), 1 call issued before open completes (symbolic open latency), refused endpoint',
-          'thorough': 'adds 2 endpoints / 3 calls and a member leaving with a call in flight'},
+          'thorough': 'adds: 2 calls with a symbolic gap and servers that reply or stay silent; 3 calls over 2 endpoints (reply / silent / close); a member leaving with calls in flight'},
   outside=['more calls/endpoints than the bound', 'byte-level content of frames (concrete here; C13/C14)', 'IEEE rounding of the 10 ms grid (exact reals, A2)',
            'histories longer than one fault per connection'],
   stubs=['virtual loop (3.1), time.time (3.2)', 'fake TCP layer + scripted peers (3.9, 3.10): connect ok/refused after a delay, peer close, '
@@ -40,14 +40,13 @@ def jobs(tier):
     js.append(dict(name='%s-reply-vs-timer' % k, stack=k, sc='reply', cost=50))
     js.append(dict(name='%s-close-vs-timer' % k, stack=k, sc='close', cost=50))
     js.append(dict(name='%s-io-error-vs-timer' % k, stack=k, sc='iofault', cost=100))
-    if tier == 'quick':
-      js.append(dict(name='%s-two-calls' % k, stack=k, sc='two', fixed_kinds=True, cost=3000, shards=8, shard_depth=3))
-    else:
-      js.append(dict(name='%s-two-calls' % k, stack=k, sc='two', cost=30000, shards=64, shard_depth=7))
+    js.append(dict(name='%s-two-calls' % k, stack=k, sc='two', fixed_kinds=True, cost=3000, shards=8, shard_depth=3))
+    if tier != 'quick':
+      js.append(dict(name='%s-two-calls-gap-kinds' % k, stack=k, sc='two', gaps=[1], cost=30000, shards=64, shard_depth=6))
     js.append(dict(name='%s-before-open' % k, stack=k, sc='preopen', cost=200))
     js.append(dict(name='%s-refused' % k, stack=k, sc='refused', cost=50))
     if tier != 'quick':
-      js.append(dict(name='%s-three-calls-two-endpoints' % k, stack=k, sc='three', cost=50000, shards=64, shard_depth=8))
+      js.append(dict(name='%s-three-calls-two-endpoints' % k, stack=k, sc='three', gaps=[], cost=50000, shards=64, shard_depth=6))
       js.append(dict(name='%s-member-leaves' % k, stack=k, sc='leave', cost=3000, shards=16, shard_depth=5))
   return js
 
@@ -138,7 +137,7 @@ def make_body(job):
       if n >= 2: hdecide(ds[0] < ds[1])
       ars = []
       for i in range(n):
-        if not job.get('fixed_kinds'):
+        if i in job.get('gaps', []):
           g = fresh_real('issue_gap%d' % i, 0, 2)
           if hdecide(g > 0): gevent.sleep(g)
         ars.append((vtime.now(), c.hi_async('x%d' % i)))
